@@ -95,6 +95,9 @@ def cast_expressible(kind, target):
     return need_s and need_b
 
 
+RESIZE_OPS = ("resize", "resize_v")   # packed a.resize(shape) / variadic a.resize(n0, n1, ...): same contract
+
+
 # ------------------------------------------------------------------ model
 class Slot:
     __slots__ = ("shape", "vals", "known")
@@ -117,7 +120,7 @@ def m_apply(kind, state, step):
     s = [x.copy() if x is not None else None for x in state]
     op = step[0]
     info = {}
-    if op == "resize":
+    if op in RESIZE_OPS:
         k, shp = step[1], list(step[2])
         if not expressible(kind, shp):
             info["r"] = "inexpressible"
@@ -177,7 +180,7 @@ def config_finding(kind, layout):
 def step_finding(kind, step, before):
     """id of the finding whose input class this step (applied in model state `before`) enters, else None"""
     sk, _ = structure(kind)
-    if step[0] == "resize":
+    if step[0] in RESIZE_OPS:
         shp = list(step[2])
         if expressible(kind, shp) and not admissible(kind, shp) and mutates_when_refused(kind, before[step[1]].shape, shp):
             return "C20-refused-resize-not-atomic"
@@ -206,6 +209,9 @@ def next_steps_small(kind, state, depth):
     for k in live:
         for shp in (SMALL_RESIZE0 if k == 0 else SMALL_RESIZE1):
             out.append(["resize", k, shp])
+        if k == 0:
+            out.append(["resize_v", 0, [2, 3]])
+            out.append(["resize_v", 0, [2, 3, 2]])
         out.append(["write", k, [e - 1 for e in state[k].shape], 50 + depth])
     out.append(["fill_ids", 0, 100 * (depth + 1)])
     out.append(["copy", 1, 0])
@@ -423,7 +429,7 @@ class C20(Prop):
                 t = draw(st.integers(0, 11))
                 if t <= 3:
                     ok = [x for x in BIG_RESIZE if step_finding(kind, ["resize", k, x], state) not in excl] if excl else BIG_RESIZE
-                    s_ = ["resize", k, list(draw(st.sampled_from(ok or [state[k].shape])))]
+                    s_ = [draw(st.sampled_from(RESIZE_OPS)), k, list(draw(st.sampled_from(ok or [state[k].shape])))]
                 elif t <= 5:
                     s_ = ["write", k, [draw(st.integers(0, e - 1)) for e in state[k].shape], draw(st.integers(-999, 9999))]
                 elif t == 6:
@@ -520,7 +526,8 @@ class C20(Prop):
         for s_, info, before, after in walk(case):
             if refused_seen:
                 out.add("refused_then_more")
-            if s_[0] == "resize":
+            if s_[0] in RESIZE_OPS:
+                out.add(s_[0] + "_form")
                 if info["r"] is True:
                     out.add("resize_ok")
                     if info["dim_change"]:
@@ -616,7 +623,7 @@ class C20(Prop):
             where = " [%s %s after step %d %s]" % (kind, layout, i, json.dumps(s_))
             op = s_[0]
             touched = set()
-            if op == "resize":
+            if op in RESIZE_OPS:
                 k = s_[1]
                 if ent.get("r") != info["r"]:
                     return "resize returned %s, the types admit this request: %s (current shape %s)" % (ent.get("r"), info["r"], before[k].shape) + where
@@ -638,12 +645,12 @@ class C20(Prop):
             f = self._cmp_entry(kind, layout, after, ent)
             if f:
                 return f + where
-            if ent["nev"] != prev["nev"]:
-                return "verification hook event(s) [kind,a,b] %s (4 static_vector capacity, 5 clipped clamp, 7 index >= extent, 8 offset >= buffer length, 2/9 static_vector index)" % (obs.get("events") or [])[:4] + where
             if op in ("cast_kind", "cast_dtype") and not (op == "cast_kind" and not cast_in_domain(kind, before[s_[1]].shape, s_[2])):
                 f = self._check_cast(kind, s_, ent)
                 if f:
                     return f if f.startswith("HARNESS-ERROR") else f + where
+            if ent["nev"] != prev["nev"]:
+                return "verification hook event(s) [kind,a,b] %s (4 static_vector capacity, 5 clipped clamp, 7 index >= extent, 8 offset >= buffer length, 2/9 static_vector index)" % (obs.get("events") or [])[:4] + where
         if len(trace) != len(case["steps"]) + 1:
             return "HARNESS-ERROR trace has %d entries for %d steps" % (len(trace), len(case["steps"]))
         return None
